@@ -137,6 +137,28 @@ def run(chk, repo, tier):
                 if later:
                     shared.append(f'`{node.target.id}` is another name for `{fb.module.segment(rhs)[:30]}` and is updated in place at {fb.loc(node)}, '
                                   f'`{src}` is used again at {fb.loc(later[0])}')
+    # a channel image split into tiles (reshape to (tiles_r, period, tiles_c, period)) is split along its own axes: the row
+    # pair is sized from the row count of the frame, the column pair from the column count
+    mixed, n_split = [], 0
+    for p in returns(bpaths):
+        for a_ in nf.value_atoms(p.ret):
+            if not (is_app(a_, ('m:reshape', 'reshape')) and len(a_[2]) == 5 and isinstance(a_[2][0], Poly)):
+                continue
+            eins = [x for x in nf.value_atoms(a_[2][0]) if is_app(x, 'einsum') and len(x[2]) >= 2 and isinstance(x[2][1], Poly)]
+            if not eins:
+                continue
+            cube = eins[0][2][1]
+            r_at, c_at = nf.index(nf.attr(cube, 'shape'), C(1)).single_atom(), nf.index(nf.attr(cube, 'shape'), C(2)).single_atom()
+            dims = a_[2][1:5]
+            n_split += 1
+            for k, d in enumerate(dims):
+                at = nf.value_atoms(d) if isinstance(d, Poly) else set()
+                wrong = c_at if k < 2 else r_at
+                right = r_at if k < 2 else c_at
+                if wrong in at and right not in at:
+                    mixed.append(f'dimension {k} of the tile view is {fmt(d)[:70]}')
+    chk.ob('C16-d', 'U-axis', fb.key, 'tiles of a channel image are cut along its own axes (rows from the row count, columns from the column count)',
+           not mixed, '; '.join(sorted(set(mixed))[:2]) or f'{n_split} tile view(s)', fb.loc())
     chk.ob('C16-c', 'E-ownership', fb.key, 'the colour blocks do not share storage', not shared,
            '; '.join(sorted(set(shared))[:2]) or 'no in-place operation on an entry of a container', fb.loc())
     with chk.guard(['C16-a', 'C16-b', 'C16-c', 'C16-d'], fb.key, 'colour channels recognisable in the result'):
@@ -408,6 +430,32 @@ def capacity_rules(chk, repo, fa, clause):
                         ok_pow = False
                         det_pow = f'the powers are stored back into a cube of {fmt(base)[:80]}, which keeps the element type of the ' \
                                   'caller\'s array: img**order wraps in a small integer type'
+    # the cube the powers are taken in holds one whole copy of the frame per term: the frame repeated along a NEW leading axis
+    # (np.repeat of the rows of the frame, reshaped, puts other pixels' counts at a pixel)
+    ok_cube, det_cube = None, 'undecided: construction of the power cube not recognised'
+    try:
+        _fa = repo.func('detector.adc')
+        _, _ap, _ = analyse(repo, _fa)
+        for p in returns(_ap):
+            for lp in p.state.loops:
+                for nm, pre_v in lp['pre'].items():
+                    if not isinstance(pre_v, Poly):
+                        continue
+                    for x in nf.value_atoms(pre_v):
+                        if not is_app(x, 'repeat') or not x[2] or not isinstance(x[2][0], Poly):
+                            continue
+                        src = x[2][0].single_atom()
+                        new_axis = src is not None and src[0] == 'idx' and (src[2] == NONE or (isinstance(src[2], Tup) and src[2].items and src[2].items[0] == NONE))
+                        reshaped = any(is_app(y, ('m:reshape', 'reshape')) and x in nf.value_atoms(y[2][0]) for y in nf.value_atoms(pre_v)
+                                       if y[0] == 'app' and y[2] and isinstance(y[2][0], Poly))
+                        if new_axis:
+                            ok_cube, det_cube = (True if ok_cube is None else ok_cube), det_cube if ok_cube is False else ''
+                        elif reshaped:
+                            ok_cube = False
+                            det_cube = f'{nf.fmt_atom(x)[:80]} repeats each row of the frame, the reshape then deals the rows out to the wrong planes'
+    except AnalysisError:
+        pass
+    chk.ob('C16-g', 'N-identity', 'detector.adc', 'every plane of the power cube is a whole copy of the frame', ok_cube, det_cube, '')
     # ... in double precision: counts squared exceed the 24-bit mantissa of single precision from 4097 electrons on
     narrow, n_cast = [], 0
     for p in returns(paths):
